@@ -14,6 +14,8 @@
     FZ <cps pat> <t> <off>            → code points of format in a zone of constant offset off (ms)
     PZ <cps pat> <now> <cps input> <off> → Parse with time.Local at constant offset off
     T <cps pat> <t>       →  Spec: t truncated to the fields of pat
+    L <v> <size>          →  code points of the exported LPadInt(v, size)   (any ints)
+    I <size> <cps input>  →  the exported ToInt on a reader holding input: `<value> <characters left>` | err
 
   strings travel as comma separated code points, the empty string as `-`.
 -/
@@ -130,6 +132,17 @@ def answer (line : String) : String :=
       | "range" => "range"
       | _ => match (parseObjIn off {} pat now inp).2 with | some v => toString v | none => "err"
     | _, _, _, _ => "bad-op"
+  | ["L", v, size] =>
+    match parseInt v, parseInt size with
+    | some v, some size => cpsOf (lpadInt v size)
+    | _, _ => "bad-op"
+  | ["I", size, inp] =>
+    match parseNat size, parseCps inp with
+    | some size, some inp =>
+      match toIntZ inp size with
+      | some (v, rest) => s!"{v} {rest.length}"
+      | none => "err"
+    | _, _ => "bad-op"
   | ["T", pat, t] =>
     match parseCps pat, parseNat t with
     | some pat, some t => toString (truncTo pat t)
